@@ -357,8 +357,17 @@ def match_known(prop: str, key: dict, findings=None) -> dict | None:
     for f in findings:
         if f.get("status") != "known" or f["property"] != prop:
             continue
-        if all(key.get(k) == v for k, v in f["key"].items()):
-            return f
+        if not all(key.get(k) == v for k, v in f.get("key", {}).items()):
+            continue
+        inputs = f.get("inputs")
+        if inputs is not None:
+            # the finding lists the specific inputs (workload id, schedule
+            # id or "*") on which it fails; nothing else is covered by it
+            w, s = key.get("workload"), key.get("schedule")
+            if not any(i[0] == w and (i[1] == "*" or i[1] == s)
+                       for i in inputs):
+                continue
+        return f
     return None
 
 
